@@ -47,7 +47,7 @@ def build2(flavours, root, b_exports):
     for name, wasm in (('ma', module2(1)), ('mb', module2(100, b_exports))):
         rc, err = batch.translate(wasm, d, w2c2=mclib.w2c2_binary(), w2c2_args=('-m',), modname=name)
         if rc != 0:
-            raise mclib.MachineryError('w2c2 -m failed on the two-module thread-spawn scenario: ' + err)
+            raise mclib.PipelineFailure('w2c2 -m failed on the two-module thread-spawn scenario', err)
     defs = ['-include', os.path.join(mclib.MC, 'atomic_points.h'), '-std=gnu99'] + WASI_DEFS + ([] if b_exports else ['-DB_NOEXPORT'])
     srcs = [os.path.join(d, 'ma.c'), os.path.join(d, 'mb.c'), os.path.join(mclib.MC, 'h_spawn2.c'), os.path.join(REPO, 'wasi', 'wasi.c')]
     exes = dict(pmap(lambda fl: (fl, mclib.build_harness(d, fl, srcs, incs=[d, os.path.join(REPO, 'w2c2'), os.path.join(REPO, 'wasi')], defs=defs)), flavours))
@@ -93,7 +93,7 @@ def build(flavours, root=None, with_export=True):
     os.makedirs(d, exist_ok=True)
     rc, err = batch.translate(module(with_export), d, w2c2=mclib.w2c2_binary())
     if rc != 0:
-        raise mclib.MachineryError('w2c2 failed on the thread-spawn module: ' + err)
+        raise mclib.PipelineFailure('w2c2 failed on the thread-spawn module', err)
     defs = ['-include', os.path.join(mclib.MC, 'atomic_points.h'), '-std=gnu99'] + WASI_DEFS
     srcs = [os.path.join(d, 'm.c'), os.path.join(mclib.MC, 'h_spawn.c'), os.path.join(REPO, 'wasi', 'wasi.c')]
     exes = dict(pmap(lambda fl: (fl, mclib.build_harness(d, fl, srcs, incs=[d, os.path.join(REPO, 'w2c2'), os.path.join(REPO, 'wasi')], defs=defs)), flavours))
